@@ -6,6 +6,8 @@ import EaselModel.Generated.SimdHelpers
 import EaselModel.Generated.SimdLogExp
 import EaselModel.Vec.Model
 import EaselModel.Vec.Mat
+import EaselModel.Vec.CSem
+import EaselModel.Generated.VectorOps
 /-! Line-protocol driver for the C20 model: SIMD helpers (generated), raw intrinsics (semantics table),
     esl_sse_logf/expf (generated lane functions on the hardware float instance), vector routines (hand model). -/
 open EaselModel EaselModel.Proto EaselModel.Simd EaselModel.Vec
@@ -250,6 +252,63 @@ def opVecI (k : Nat) (op : String) (x y : List Int) (m : Nat) (c : Int) : String
   | "AddScaled" => "ok " ++ hexOrDash (ibytes k (List.zipWith (fun a b => a + b * c) x y))
   | _ => "bad-op"
 
+/-! ## vector routines REGENERATED from esl_vectorops.c / esl_matrixops.c (`Generated/VectorOps.lean`): one generic path for the
+    five element types; the generated `dispatch` maps the C function's name to its translation -/
+structure Codec (α : Type) where
+  width : Nat
+  dec : List UInt8 → α
+  enc : α → List UInt8
+  scal : α → String
+  /-- the scalar argument of the op line (`s=` bit pattern for D/F, `k=` decimal for I/L) -/
+  ofArg : List String → α
+
+def codecD : Codec Float := ⟨8, fun c => Float.ofBits (UInt64.ofNat (leNat c)), fun x => natLE 8 x.toBits.toNat, dbits,
+  fun ws => Float.ofBits (UInt64.ofNat (((arg? ws "s").bind hexNat?).getD 0))⟩
+def codecF : Codec Float32 := ⟨4, fun c => Float32.ofBits (UInt32.ofNat (leNat c)), fun x => natLE 4 x.toBits.toNat, fbits,
+  fun ws => Float32.ofBits (UInt32.ofNat (((arg? ws "s").bind hexNat?).getD 0))⟩
+def codecI : Codec Int32 := ⟨4, fun c => (UInt32.ofNat (leNat c)).toInt32, fun x => natLE 4 x.toUInt32.toNat, fun x => toString x.toInt,
+  fun ws => Int32.ofInt ((argInt? ws "k").getD 1)⟩
+def codecL : Codec Int64 := ⟨8, fun c => (UInt64.ofNat (leNat c)).toInt64, fun x => natLE 8 x.toUInt64.toNat, fun x => toString x.toInt,
+  fun ws => Int64.ofInt ((argInt? ws "k").getD 1)⟩
+def codecW : Codec UInt16 := ⟨2, fun c => UInt16.ofNat (leNat c), fun x => natLE 2 x.toNat, fun x => toString x.toNat, fun _ => 0⟩
+def codecB : Codec UInt8 := ⟨1, fun c => UInt8.ofNat (leNat c), fun x => [x], fun x => toString x.toNat, fun _ => 0⟩
+
+/-- `none` = this op is not one of the regenerated routines (the caller falls back to the hand model) -/
+def opVecGen {α : Type} [CElem α] (cd : Codec α) (T : String) (op : String) (ws : List String) : Option String :=
+  let x : Array α := ((chunks cd.width ((argHex? ws "x").getD [])).map cd.dec).toArray
+  let hasY := (arg? ws "y").isSome
+  let y : Array α := ((chunks cd.width ((argHex? ws "y").getD [])).map cd.dec).toArray
+  let len : Int := x.size
+  let n : Int := match argInt? ws "n" with | some k => if k < len && k ≥ 0 then k else len | none => len
+  let c := cd.ofArg ws
+  let M : Int := ((argNat? ws "m").getD 1 : Nat)
+  let dest : Array α := Array.replicate x.size c
+  let first (a : Array α) : List UInt8 := (a.extract 0 n.toNat).toList.flatMap cd.enc
+  let fmt (r : Option (Option (Res α))) : Option String :=
+    match r with
+    | none => none
+    | some none => some "fault"
+    | some (some r) =>
+      match r.e, r.i with
+      | some e, _ => some ("ok " ++ cd.scal e)
+      | none, some i => some s!"ok {i}"
+      | none, none => some ("ok " ++ hexOrDash (r.arrs.flatMap first))
+  if hasY && y.size != x.size then some "bad-op" else
+  let v := "esl_vec_" ++ T ++ op
+  match op with
+  | "Set" | "Scale" | "Increment" => fmt (Gen.dispatch v [x] [n] [c])
+  | "Add" => fmt (Gen.dispatch v [x, y] [n] [])
+  | "AddScaled" => fmt (Gen.dispatch v [x, y] [n] [c])
+  | "Sum" | "Max" | "Min" | "ArgMax" | "ArgMin" | "SortIncreasing" | "SortDecreasing" => fmt (Gen.dispatch v [x] [n] [])
+  | "Dot" | "Swap" => fmt (Gen.dispatch v [x, y] [n] [])
+  | "Copy" | "Reverse" => fmt (Gen.dispatch v [x, dest] [n] [])
+  | "ReverseInPlace" => fmt (Gen.dispatch ("esl_vec_" ++ T ++ "Reverse_inplace") [x] [n] [])
+  | "MatMax" => if M = 0 then some "bad-op" else fmt (Gen.dispatch ("esl_mat_" ++ T ++ "Max") [x] [M, Int.tdiv n M] [])
+  | "MatScale" => if M = 0 then some "bad-op" else fmt (Gen.dispatch ("esl_mat_" ++ T ++ "Scale") [x] [M, Int.tdiv n M] [c])
+  | "MatSet" => if M = 0 then some "bad-op" else fmt (Gen.dispatch ("esl_mat_" ++ T ++ "Set") [x] [M, Int.tdiv n M] [c])
+  | "MatCopy" => if M = 0 then some "bad-op" else fmt (Gen.dispatch ("esl_mat_" ++ T ++ "Copy") [x, dest] [M, Int.tdiv n M] [])
+  | _ => none
+
 def opVec (ws : List String) : String :=
   match arg? ws "op" with
   | none => "bad-op"
@@ -261,6 +320,16 @@ def opVec (ws : List String) : String :=
     let sbits := ((arg? ws "s").bind hexNat?).getD 0
     let m := (argNat? ws "m").getD 1
     let hasY := (arg? ws "y").isSome
+    let gen : Option String := match T with
+      | 'D' => opVecGen codecD "D" op ws
+      | 'F' => opVecGen codecF "F" op ws
+      | 'I' => opVecGen codecI "I" op ws
+      | 'L' => if op.startsWith "Mat" then some "bad-op" else opVecGen codecL "L" op ws
+      | 'W' => if op == "Copy" || op == "MatCopy" then opVecGen codecW "W" op ws else some "bad-op"
+      | 'B' => if op == "Copy" || op == "MatCopy" then opVecGen codecB "B" op ws else some "bad-op"
+      | 'C' => if op == "Reverse" || op == "ReverseInPlace" then opVecGen codecB "C" op ws else some "bad-op"
+      | _ => none
+    if let some r := gen then r else
     match T with
     | 'D' => if hasY && yb.length / 8 != xb.length / 8 then "bad-op" else
              opVecD op (doubles xb) (doubles yb) (Float.ofBits (UInt64.ofNat sbits)) m
@@ -319,12 +388,17 @@ def opCmp (ws : List String) : String :=
   let inc := (op.drop 1).toString == "Increasing"
   let sgn (x : Int) : String := s!"ok {if inc then x else -x}"
   let toI (k : Nat) (u : Nat) : Int := if u < 2 ^ (8 * k - 1) then (u : Int) else (u : Int) - (2 ^ (8 * k) : Nat)
-  match T with
-  | 'D' => sgn (cmp3 (Float.ofBits (UInt64.ofNat ua)) (Float.ofBits (UInt64.ofNat ub)))
-  | 'F' => sgn (cmp3 (Float32.ofBits (UInt32.ofNat ua)) (Float32.ofBits (UInt32.ofNat ub)))
-  | 'I' => sgn (cmp3 (toI 4 (ua % 2 ^ 32)) (toI 4 (ub % 2 ^ 32)))
-  | 'L' => sgn (cmp3 (toI 8 ua) (toI 8 ub))
-  | _ => "bad-op"
+  let sg (x : Int) : String := s!"ok {if x < 0 then (-1 : Int) else if x > 0 then 1 else 0}"
+  match T, inc with      -- the comparators as REGENERATED from esl_vectorops.c
+  | 'D', true => sg (Gen.qsort_DIncreasing (Float.ofBits (UInt64.ofNat ua)) (Float.ofBits (UInt64.ofNat ub)))
+  | 'D', false => sg (Gen.qsort_DDecreasing (Float.ofBits (UInt64.ofNat ua)) (Float.ofBits (UInt64.ofNat ub)))
+  | 'F', true => sg (Gen.qsort_FIncreasing (Float32.ofBits (UInt32.ofNat ua)) (Float32.ofBits (UInt32.ofNat ub)))
+  | 'F', false => sg (Gen.qsort_FDecreasing (Float32.ofBits (UInt32.ofNat ua)) (Float32.ofBits (UInt32.ofNat ub)))
+  | 'I', true => sg (Gen.qsort_IIncreasing (UInt32.ofNat ua).toInt32 (UInt32.ofNat ub).toInt32)
+  | 'I', false => sg (Gen.qsort_IDecreasing (UInt32.ofNat ua).toInt32 (UInt32.ofNat ub).toInt32)
+  | 'L', true => sg (Gen.qsort_LIncreasing (UInt64.ofNat ua).toInt64 (UInt64.ofNat ub).toInt64)
+  | 'L', false => sg (Gen.qsort_LDecreasing (UInt64.ofNat ua).toInt64 (UInt64.ofNat ub).toInt64)
+  | _, _ => "bad-op"
 
 def step (s : Unit) (line : String) : Unit × String :=
   let ws := words line
